@@ -11,7 +11,9 @@
 // CDF clauses; constructor rejection; Clone / Get-SetParameters / Export-ImportConfig round
 // trips; equality between the two holder types; mutator histories (history.go): every exported
 // Set* / ImportConfig method found by reflection, histories of length 1 and 2 with arguments
-// from the family's lattice, the object compared with a fresh one at the final parameters.
+// from the family's lattice, the object compared with a fresh one at the final parameters;
+// independence from caller-owned objects (alias.go): constructor / SetParameters arguments and
+// getter results are mutated by the caller, the distribution must not move.
 package main
 
 import (
@@ -59,6 +61,10 @@ func tasks(th bool) []task {
 			if f.only == nil || f.only["history"] {
 				ts = append(ts, task{fam: name, d: d, clauses: histClause})
 			}
+			// caller-owned objects (alias.go)
+			if f.only == nil || f.only["alias"] {
+				ts = append(ts, task{fam: name, d: d, clauses: aliasClause})
+			}
 		}
 		if f.invalid != nil {
 			for _, iv := range f.invalid() {
@@ -81,6 +87,8 @@ func run(c *vf.Ctx) {
 				ni++
 			} else if t.clauses["history"] {
 				nh++
+			} else if t.clauses["alias"] {
+				continue
 			} else if t.holder == "" {
 				nv++
 			}
@@ -89,6 +97,7 @@ func run(c *vf.Ctx) {
 		c.Count("invalid constructor points", int64(ni))
 		c.Count("history: start points", int64(nh))
 		rp.countMutators()
+		rp.countAliasDiscovery()
 	}
 	for i, t := range ts {
 		if !c.Mine(int64(i)) {
@@ -106,6 +115,10 @@ func run(c *vf.Ctx) {
 		}
 		if t.clauses["history"] {
 			rp.checkHistories(t.d, rank, t.holder)
+			continue
+		}
+		if t.clauses["alias"] {
+			rp.checkAlias(t.d, rank)
 			continue
 		}
 		rp.checkInstance(t.d, rank, t.clauses, t.holder)
@@ -139,6 +152,11 @@ func replay(c *vf.Ctx, raw json.RawMessage) {
 		fmt.Printf("replayed history %s holder=%s: %s\n", cs.Dist, cs.Holder, seqOf(cs.History))
 		return
 	}
+	if cs.Clause == "alias" {
+		rp.checkAlias(cs.Dist, 0)
+		fmt.Printf("replayed caller-object independence of %s (reported key: %s)\n", cs.Dist, cs.Key)
+		return
+	}
 	cl := map[string]bool{cs.Clause: true}
 	h := cs.Holder
 	if cs.Clause == "holder" {
@@ -161,7 +179,9 @@ func main() {
 			"+ family x invalid constructor lattice; a case is non-trivial when the independent textbook reference decides it (value compared within a conditioning-derived tolerance, exact -Inf outside the support, " +
 			"a normalisation sum whose reference quadrature on the same fixed node set is itself 1 within 1e-8, a CDF point where LogCdf/Cdf returned values, a round trip that reached the comparison); each case is enumerated once. " +
 			"Mutator histories: for every family, every exported method named Set* or ImportConfig of its type (found by reflection; those without an argument supplier are listed in the counters) x every start point of the valid lattice x every argument from the lattice (length 1), " +
-			"and every start point x every ordered pair of (mutator, argument) over a sub-lattice of <=8 (thorough 12) evenly spaced lattice points (length 2); after each history GetParameters, LogPdf on the probe points, the total mass (discrete families) and ExportConfig must equal those of an object built by the constructor at the modelled final parameters; a history is non-trivial when every step changes the modelled parameters",
+			"and every start point x every ordered pair of (mutator, argument) over a sub-lattice of <=8 (thorough 12) evenly spaced lattice points (length 2); after each history GetParameters, LogPdf on the probe points, the total mass (discrete families) and ExportConfig must equal those of an object built by the constructor at the modelled final parameters; a history is non-trivial when every step changes the modelled parameters. " +
+			"Caller-owned objects (alias.go): family x valid lattice point x holder {Float64, Real64, mixed} x route {every Scalar/Vector/Matrix argument of the constructor call, the vector given to SetParameters, the vector returned by GetParameters (fresh object / after SetParameters), every other zero-argument getter with a Scalar/Vector/Matrix result (reflection)} " +
+			"x object x mutation {set-valid: value at another lattice point, set-other: 0 or -1, Reset()} x {each element, all elements, all objects of the call}; LogPdf on the probe points, Cdf/LogCdf and GetParameters must be bit-identical before and after; non-trivial when the mutation really changed the caller's object and a probe point has a finite LogPdf",
 		Assume: []string{
 			"textbook parametrisation is the one named by constructor argument names, struct comments and repository tests (sigma = standard deviation / scale, gamma(shape, rate), negative binomial p^k (1-p)^r, beta log-scale: argument log(theta), density w.r.t. theta)",
 			"geometric: p(1-p)^k on k = 0,1,2,... (no doc/test names the convention)",
@@ -169,6 +189,7 @@ func main() {
 			"value at a boundary point of a continuous support may be the formula limit or -Inf",
 			"normalisation tolerance 1e-6; quadrature node set fixed per (support, tier), gated on the reference side only",
 			"mutator histories: SetParameters is given GetParameters() of a fresh object of the same shape (same structural constants, same start/final state sets for the HMM); SetStartStates restricts the CURRENT initial distribution (calls that leave it without mass are not enumerated); comparison with the fresh object within 1e-12 (1e-10 where parameters are stored transformed)",
+			"caller-owned objects: no doc comment declares GetParameters() (or any other getter) a live view and the library's own callers overwrite its result as scratch, so it must be independent; exported struct fields are live by nature and are not touched; distributions handed to wrapper constructors are not documented to be cloned: sharing is recorded as an outcome class, not a violation; ImportConfig receives no Scalar/Vector/Matrix",
 			"vectorDistribution.Hmm stands for the six HMM types that embed generic.Hmm (matrix, constrained, hierarchical, shape): their mutators are listed as not driven",
 		},
 		Run:       run,
